@@ -1,12 +1,13 @@
 \* everything together: random behaviours (-simulate) replayed on the real node
 SPECIFICATION MCSpec
-CONSTANTS AlreadyChecked = TRUE PkPerAuthority = TRUE CheckSubject = TRUE CheckPermission = TRUE Window = 300 RespCap = 10 FitAll = 8
+CONSTANTS AlreadyChecked = TRUE PkPerAuthority = TRUE CheckSubject = TRUE CheckPermission = TRUE CommitBeforeSend = TRUE Window = 300 RespCap = 10 FitAll = 8
   Regs = {1, 2, 3, 4, 5, 6, 7} Senders = {1, 2, 3} TokIdx = {1, 2, 3, 4, 5, 6, 7}
   MdIdx = {1, 2, 3, 4, 5, 6, 7, 8, 9, 10, 11, 12} AttIdx = {1, 2, 3, 4, 5, 6, 7} MissIdx = {1, 2, 3, 4, 6}
-  Ticks = {2, 299} OwnerPeers = {1, 2, 3} KnownVals = {0, 1, 2} AttSend = {1, 2, 4} RegFirst = TRUE
-  MaxReg = 3 MaxMsg = 8 MaxTick = 3 MaxOwn = 4
+  Ticks = {2, 299} OwnerPeers = {1, 2, 3} KnownVals = {0, 1, 2} AttSend = {1, 2, 4} RegFirst = TRUE FaultTabs = {1, 2}
+  MaxReg = 3 MaxMsg = 8 MaxTick = 3 MaxOwn = 4 MaxFault = 2
 INVARIANT TypeOK
 INVARIANT SignsOnlyConsented
 INVARIANT StoresOnlyValidlySigned
 INVARIANT TokensOnlyUpToPermitted
 INVARIANT TreesVerified
+INVARIANT SentOnlyRecorded
